@@ -39,7 +39,10 @@ RULE = ("random TFIM graphs (2..6 spins; chain with optional ring/chord/repeated
         "Further lock-step families with the same oracle: `lockstep-hb` heat-bath sweeps on BOTH samplers (set_enable_heatbath on the "
         "Ising sampler, set_do_heatbath by hand on its conversion; initial cutoff 1..3 so the cutoff has to grow after the conversion; "
         "conversion before any step and after k steps) and `lockstep-g0` transverse field exactly 0 with |J| >= 1, beta 2 or 4 "
-        "(operators present). Non-trivial = every convert case, every lockstep case with steps; distinct = distinct case line.")
+        "(operators present). Small energy units: J, Gamma, h scaled exactly by 2^-56 / 2^-60 in `convert` (matrix-level: every bond x every "
+        "in/out pattern of QmcIsingGraph::hamiltonian vs Interaction::at, offsets, flags; the edge tables are flagged constant-along-diagonal "
+        "by the library's absolute tolerance there) and `lockstep-small` (beta scaled by the inverse factor; stepping through "
+        "single_diagonal_step + single_cluster_step vs diagonal_update + cluster_update + flip_free_bits). Non-trivial = every convert case, every lockstep case with steps; distinct = distinct case line.")
 
 
 def main(ck):
@@ -56,6 +59,7 @@ def main(ck):
         ck.notes.append("h != 0 lock-step runs: %s of %s identical (finding F4; judged only on the recorded witness input)" % (ck.stats.get("lockstep_h_nonzero_same"), ck.stats.get("lockstep_h_nonzero_runs")))
         ck.notes.append("heat-bath option set before conversion: %s of %s lock-step runs identical (into_qmc does not carry the option; outside the property's quantifier, recorded as a note)" % (ck.stats.get("lockstep_heatbath_option_same"), ck.stats.get("lockstep_heatbath_option_runs")))
         ck.notes.append("heat-bath on both samplers: %s of %s lock-step runs identical; Gamma = 0: %s of %s identical (both judged by the oracle)" % (ck.stats.get("lockstep_heatbath_both_same"), ck.stats.get("lockstep_heatbath_both_runs"), ck.stats.get("lockstep_gamma_zero_same"), ck.stats.get("lockstep_gamma_zero_runs")))
+        ck.notes.append("small energy units (2^-56, 2^-60): %s convert cases, %s edge interactions flagged constant-along-diagonal although J != 0 (absolute tolerance, F23 class; harmless because Interaction::at indexes the table all the same - checked by the oracle); %s of %s split lock-step runs identical" % (ck.stats.get("convert_small_units"), ck.stats.get("convert_edges_flagged_constant_diag_though_J_nonzero"), ck.stats.get("lockstep_small_units_same"), ck.stats.get("lockstep_small_units_runs")))
         ck.notes.append("Gamma < 0: " + str(ck.stats.get("note_gamma_negative")))
     ck.assumptions.append("Gamma >= 0 (constructor domain of make_interaction; with Gamma < 0 the Ising sampler's own timestep panics in gen_bool)")
     ck.assumptions.append("trajectory theorem: h = 0 (|h| <= eps), RVB and heat-bath options off; it is a statement about the composition of the two timesteps out of shared update routines (Moves/Lawful), tied to the real code by the lock-step runs")
